@@ -19,8 +19,9 @@ RULE = ("grammar-generated ASTs of the stratified expression language (every ope
         "single-character deletions and a sample of insertions/replacements over the solver alphabet, classified "
         "by the reference recogniser (well-formed -> value must equal the specification; unbalanced / wrong "
         "arity / missing operand -> must raise; other -> only impl = model); random literal candidates for the "
-        "float-literal recogniser; every stream is also solved, in the same order (well-formed strings interleaved "
-        "with the malformed ones), by ONE long-lived solver instance. non-trivial = expression with >= 2 operators of different steps, a sign, or "
+        "float-literal recogniser; long flat chains (550-3000 operands quick, up to 5000 thorough) on one nesting "
+        "level for every binary step, operands with sign runs, bare or inside a call; every stream is also solved, in the same order (well-formed strings interleaved "
+        "with the malformed ones), by ONE long-lived solver instance. deeply nested calls (30-70 levels quick, 60-120 thorough). non-trivial = expression with >= 2 operators of different steps, a sign, or "
         "a call; distinct = the text")
 ASSUMPTIONS = [
     "atoms are compared symbolically: the real solver runs with a term-recording atom class that exposes exactly "
@@ -64,7 +65,13 @@ CORPUS = core.VERIF / "corpus" / "C01"
 
 # ---------------------------------------------------------------- translator
 def gen_tables(ctx):
-    cfg = P.default_config()
+    import numpy as np
+    with np.errstate():      # probing executes the operate_* methods: keep numpy's error mode of this process
+        before = np.geterr()
+        cfg = P.default_config()
+        if np.geterr() != before:
+            ctx.notes.append("abstract probing of the operate_* methods changed numpy's error mode: %s -> %s"
+                             % (before, np.geterr()))
     doc = P.doc_steps((core.REPO / "docs" / "source" / "solver" / "index.rst").read_text())
     ctx.extra["table_rows"] = len(cfg["rows"])
     ctx.extra["sign_rows"] = sum(len(v) for v in cfg["sign"].values())
@@ -341,6 +348,67 @@ def text_stream(ctx, texts, where):
         judge_text(ctx, t, cls, ev_of.get(i), r["ok"]["model"], opname, where)
 
 
+def gen_chain(rng, level, n):
+    """a flat chain of n+1 operands joined by the operators of one step; operands: literals with sign runs"""
+    ops = L.LEVEL_OPS[level]
+
+    def operand():
+        k = rng.choice([0, 0, 0, 1, 1, 2, 3])
+        lit = rng.choice(["1", "2", "0.5", "3", "1"]) if level != 2 else rng.choice(["1", "1", "1", "0.5", "2"])
+        return {"signs": [rng.random() < 0.6 for _ in range(k)], "lit": lit}
+    first = operand()
+    rest = [dict(operand(), op=rng.choice(ops)) for _ in range(n)]
+    wrap = rng.choice([None, None, None, "par", "sin", "powb"])
+    nlex = 6 * n + 20
+    mode = rng.random()
+    bl = [0] * nlex if mode < 0.4 else [rng.choice([0, 0, 1, 2]) for _ in range(nlex)]
+    return {"k": "chain", "first": first, "rest": rest, "wrap": wrap, "bl": bl, "level": level, "operands": n + 1}
+
+
+def chain_stream(ctx, reqs):
+    """"every nesting depth and LENGTH": long flat chains on one nesting level. Terms travel in postfix form."""
+    from scinumtools.solver import ExpressionSolver, AtomBase
+    res = ctx.driver.ask_many([{k: v for k, v in r.items() if k not in ("level", "operands")} for r in reqs])
+    for rq, r in zip(reqs, res):
+        ctx.count("chain.level%d" % rq["level"])
+        ctx.count("chain.operands", rq["operands"])
+        replay = {"stream": "chain", "chain": {k: v for k, v in rq.items() if k != "bl"}, "bl": rq["bl"][:50]}
+        if "ok" not in r or not r["ok"]["wf"]:
+            ctx.disagreement("chain", replay, "driver: %s" % str(r)[:300])
+            continue
+        text = r["ok"]["text"]
+        replay["text"] = text
+        spec = L.norm_postfix(r["ok"]["spec"])
+        ctx.case(text, True, {"chain_level": rq["level"], "operands": rq["operands"], "text_head": text[:60]})
+        try:
+            with ExpressionSolver(P.RecAtom) as es:
+                out = es.solve(text)
+            impl = L.norm_postfix(L.postfix_of(out.value)) if isinstance(out, P.RecAtom) else "non-atom"
+            raw = L.postfix_of(out.value) if isinstance(out, P.RecAtom) else None
+        except Exception as ex:
+            impl, raw = "err", None
+        m = r["ok"]["model"]
+        mod = m["postfix"] if isinstance(m, dict) and "postfix" in m else "err" if isinstance(m, dict) and "err" in m else "non-atom"
+        if (raw if raw is not None else impl) != mod:
+            ctx.disagreement("chain-model", replay, "impl and model differ on a chain of %d operands (impl %s…, model %s…)"
+                             % (rq["operands"], str(impl)[:80], str(mod)[:80]))
+        if impl != spec:
+            head = "err" if impl == "err" else "a term of %d nodes" % len(impl)
+            ctx.violation("wf-value-long",
+                          "well-formed flat expression with %d operands on one nesting level (step %d operators; %r…): "
+                          "solver gives %s, the documented order gives a term of %d nodes" %
+                          (rq["operands"], rq["level"], text[:40], head, len(spec)),
+                          dict(replay, impl_nodes=None if impl == "err" else len(impl), spec_nodes=len(spec)))
+            continue
+        # the stock AtomBase on the same text
+        stock = L.run_stock(text)
+        via = L.float_outcome(lambda: L.eval_postfix_float(spec))
+        if stock != via:
+            ctx.violation("wf-value-long-atombase",
+                          "AtomBase on a flat expression with %d operands (%r…) gives %s, the documented order in "
+                          "floats %s" % (rq["operands"], text[:40], stock, via), replay)
+
+
 def small_family():
     """systematic small expressions: every ordered pair of binary operators over three operands, with a sign
     on each operand position, every call form, sign runs, `!`."""
@@ -378,6 +446,8 @@ def small_family():
 
 
 def correspond(ctx: Ctx):
+    import sys
+    sys.setrecursionlimit(max(sys.getrecursionlimit(), 20000))   # the reference recogniser is recursive descent
     thorough = ctx.tier == "thorough"
     rng = ctx.rng
     lit_stream(ctx, 3000 if thorough else 600)
@@ -392,6 +462,27 @@ def correspond(ctx: Ctx):
     ast_stream(ctx, corpus_asts, 1, 60, "corpus")
     text_stream(ctx, bad_corpus, "corpus-malformed")
     ast_stream(ctx, small_family(), 7, 20, "small")
+    # deep nesting: plain parentheses, one function, mixed calls, 60-120 levels
+    deep = []
+    for f, d in (("par", 70 if not thorough else 120), ("sin", 40 if not thorough else 80), (None, 30 if not thorough else 60)):
+        e = ["bin", "add", ["num", "1"], ["num", "2"]]
+        for i in range(d):
+            g = f or ["par", "cos", "sqrt", "exp", "log"][i % 5]
+            e = ["fn1", g, e] if i % 7 else ["bin", "mul", ["num", "2"], ["fn1", g, e]]
+        deep.append(e)
+        if f is None:
+            deep.append(["fn2", "powb", e, ["fn2", "logb", ["num", "3"], e]])
+    ast_stream(ctx, deep, 1000, 0, "deep")
+    shallow = ["fn1", "par", ["bin", "add", ["num", "1"], ["num", "2"]]]
+    for i in range(25):
+        shallow = ["fn1", ["par", "sin", "sqrt"][i % 3], shallow]
+    ast_stream(ctx, [shallow], 1, 10, "deep-edits")   # single-character edits of a 25-level nesting
+    # long flat chains: every binary step, a few hundred to a few thousand operands
+    lengths = [550, 800, 1200, 2000] + ([3000, 5000] if thorough else [])
+    chains = [gen_chain(rng, lv, rng.choice(lengths)) for lv in (2, 3, 4, 5, 7, 8) for _ in range(4 if thorough else 1)]
+    chains.append(gen_chain(rng, 4, 3000))
+    chains.append(gen_chain(rng, 3, 40))
+    chain_stream(ctx, chains)
     maxd = 12 if thorough else 6
     n = 12000 if thorough else 1500
     asts = []
@@ -432,6 +523,21 @@ def search(ctx: Ctx):
 
 def replay(ctx: Ctx, payload):
     rp = payload.get("replay", payload)
+    if rp.get("chain"):
+        text = rp.get("text")
+        print("flat chain of %d operands, step-%d operators, %d characters: %r…" %
+              (rp["chain"]["operands"], rp["chain"]["level"], len(text), text[:70]))
+        r = L.run_rec(text) if len(text) < 400 else None
+        from scinumtools.solver import ExpressionSolver
+        try:
+            with ExpressionSolver(P.RecAtom) as es:
+                out = es.solve(text)
+            print("impl   : term of %d nodes" % len(L.postfix_of(out.value)))
+        except Exception as ex:
+            print("impl   : raises %s" % type(ex).__name__)
+        print("stock  : %s" % (L.run_stock(text),))
+        print("spec   : term of %s nodes" % rp.get("spec_nodes"))
+        return 0
     if rp.get("history"):
         from scinumtools.solver import ExpressionSolver
         print("one solver instance, calls in this order:")
